@@ -366,8 +366,11 @@ class sptensor:
             # Identify only the unique indices
             newsubs, loc = np.unique(subs, axis=0, return_inverse=True)
             # (values of a narrow integer type are combined in the platform integer, as
-            # numpy's own reducers do: a sum of duplicates need not fit the narrow type)
-            if np.issubdtype(vals.dtype, np.integer):
+            # numpy's own reducers do: a sum of duplicates need not fit the narrow type;
+            # likewise booleans, whose sum is a count)
+            if vals.dtype == np.bool_:
+                vals = vals.astype(np.int_)
+            elif np.issubdtype(vals.dtype, np.integer):
                 vals = vals.astype(
                     np.result_type(
                         vals.dtype,
